@@ -4,12 +4,12 @@ slots are exposed to the probe; and programs that drive a pool past its limit.""
 from ast import *
 
 def templates():
-    A, B, S, T, N, Iv, X1 = var("A"), var("B"), var("S$"), var("T$"), var("N%"), var("I"), arr("X", I(1))
+    A, B, SV, TV, N, Iv, X1 = var("A"), var("B"), var("S$"), var("T$"), var("N%"), var("I"), arr("X", I(1))
     return [
         ("let", [let(A, bin_("add", A, I(1)))]),
-        ("letstr", [let(S, bin_("add", Str("AB"), Str("C")))]),
+        ("letstr", [let(SV, bin_("add", Str("AB"), Str("C")))]),
         ("letarr", [let(X1, bin_("mul", I(2), I(3)))]),
-        ("zero", [let(A, I(5)), let(A, I(0)), let(S, Str("X")), let(S, Str("")), let(X1, I(1)), let(X1, I(0))]),
+        ("zero", [let(A, I(5)), let(A, I(0)), let(SV, Str("X")), let(SV, Str("")), let(X1, I(1)), let(X1, I(0))]),
         ("print", [pr(A, ";", Str("x"), ";", call("TAB", I(3)), ";")]),
         ("printnl", [pr(I(1), ",", I(2))]),
         ("if", [if_(bin_("lt", A, I(0)), [let(B, I(1))], [let(B, I(2))])]),
@@ -26,22 +26,22 @@ def templates():
         ("ongosub3", [ongosub(I(3), 900, 910)]),
         ("ongoto0", [ongoto(I(0), 10)]),
         ("ongoto9", [ongoto(I(9), 10)]),
-        ("read", [restore(), read(A, S)]),
+        ("read", [restore(), read(A, SV)]),
         ("restoren", [restore(950), read(B)]),
         ("dim", [dim(arr("Y", I(3))), let(arr("Y", I(2)), I(1)), erase(var("Y"))]),
         ("deffn", [def_("FNA", [var("P")], bin_("add", var("P"), I(1))), let(B, fn("FNA", I(2)))]),
         ("fnnest", [def_("FNA", [var("P")], bin_("add", var("P"), I(1))),
                     def_("FNB", [var("P"), var("Q")], bin_("mul", fn("FNA", var("P")), var("Q"))), let(B, fn("FNB", I(2), I(3)))]),
         ("swap", [swap(A, B)]),
-        ("mid", [let(S, Str("HELLO")), mid(S, I(2), I(2), Str("xy"))]),
-        ("strfn", [let(T, bin_("add", call("LEFT$", Str("HELLO"), I(2)), call("MID$", Str("HELLO"), I(2), I(2)))),
+        ("mid", [let(SV, Str("HELLO")), mid(SV, I(2), I(2), Str("xy"))]),
+        ("strfn", [let(TV, bin_("add", call("LEFT$", Str("HELLO"), I(2)), call("MID$", Str("HELLO"), I(2), I(2)))),
                    let(N, call("INSTR", Str("HELLO"), Str("L")))]),
         ("numfn", [let(B, bin_("add", call("ABS", un("neg", I(3))), call("INT", S(5, 1))))]),
         ("tron", [tron(), troff()]),
         ("deftype", [deftype("I", "K", "L")]),
         ("rem", [rem("NOTE")]),
         ("data", [data(I(1), I(2))]),
-        ("cmp", [let(N, bin_("and", par(bin_("lt", A, I(3))), par(bin_("eq", S, Str("X")))))]),
+        ("cmp", [let(N, bin_("and", par(bin_("lt", A, I(3))), par(bin_("eq", SV, Str("X")))))]),
         ("pos", [pr(pos(), ";")]),
     ]
 
@@ -53,7 +53,7 @@ def leak_sessions(n_iter, prefix="C18"):
     for name, body in templates():
         for shape in ("goto", "for", "sub"):
             prog = {}
-            Q = var("Q")
+            Q = var("Q!")
             if shape == "goto":
                 prog[10] = [let(Q, bin_("add", Q, I(1)))]
                 prog[20] = body
@@ -73,7 +73,7 @@ def leak_sessions(n_iter, prefix="C18"):
             for k, v in tail().items():
                 prog[k] = v
             cmds = [line(n, *prog[n]) for n in sorted(prog)]
-            cmds += [direct(run()), direct(pr(var("A"), ";", var("Q"))), direct(cont())]
+            cmds += [direct(run()), direct(pr(var("A"), ";", var("Q!"))), direct(cont())]
             out.append(session("%s-%s-%s-%d" % (prefix, name, shape, n_iter), cmds))
     return out
 
